@@ -285,7 +285,7 @@ def err_kind(e):
             return 'NotUnique'
         if 'cannot cast into generic type' in msg or 'indeterminate type' in msg:
             return 'Generic'
-        if msg.startswith('cannot cast') or 'cannot unambiguously cast' in msg:
+        if 'cannot cast' in msg or 'cannot unambiguously cast' in msg:
             return 'Cast'
         if 'could not determine array type' in msg or 'nested arrays are not supported' in msg \
                 or 'cannot determine common type' in msg:
@@ -295,6 +295,12 @@ def err_kind(e):
         if msg.startswith('cannot index') or 'index indirection cannot' in msg or 'has no element' in msg \
                 or 'is not a member of a tuple' in msg or 'has no link or property' in msg:
             return 'Index'
+    if isinstance(e, errors.InvalidReferenceError) and (
+            'is not a member of' in msg or 'invalid property reference on a primitive' in msg
+            or 'has no link or property' in msg):
+        return 'Index'
+    if isinstance(e, errors.UnsupportedFeatureError) and 'nested arrays are not supported' in msg:
+        return 'NestedArr'
     if isinstance(e, TypeError):
         return 'TypeError'
     if isinstance(e, (errors.InternalServerError, errors.SchemaError)):
